@@ -193,7 +193,7 @@ _WORLD = {
     'C02': ((2, 1, 4), (3, 2, 6)),
     'C03': ((2, 1, 3), (2, 2, 5)),
     'C04': ((2, 2, 2), (2, 2, 4)),
-    'C07': ((2, 1, 6), (3, 2, 8)),
+    'C07': ((2, 1, 5), (3, 2, 8)),      # quick: depth 5 (depth 6 no longer completes within the deadline since ALLOW_REPLACE modules joined the flag sets)
     'C08': ((2, 0, 4), (3, 0, 6)),
     'C09': ((1, 0, 4), (1, 0, 6)),
     'C13': ((1, 0, 6), (2, 0, 8)),
